@@ -20,6 +20,11 @@ PRELUDE = '''#include "au/au.hh"
 #include <type_traits>
 using namespace au;
 template <class X> using AU_ = AssociatedUnitT<std::remove_cv_t<std::remove_reference_t<X>>>;
+// unit_ratio(A, B) == ONE, answered as a trait (false when the ratio does not even exist), so that a wrong dimension is an
+// assertion failure naming the case rather than a hard error
+template <class...> using auv_vt = void;
+template <class A, class B, class = void> struct RatioIsOne : std::false_type {};
+template <class A, class B> struct RatioIsOne<A, B, auv_vt<decltype(unit_ratio(A{}, B{}))>> : stdx::bool_constant<(unit_ratio(A{}, B{}) == mag<1>())> {};
 '''
 
 
@@ -86,7 +91,7 @@ def run(ctx):
             ref = sp.reference(c["dim"], c["mag"])
             if ref:
                 L.append('static_assert(are_units_quantity_equivalent(I%d{}, %s), "c%d ref-equivalent");' % (i, ref, i))
-                L.append('static_assert(unit_ratio(I%d{}, %s) == mag<1>(), "c%d ref-ratio");' % (i, ref, i))
+                L.append('static_assert(RatioIsOne<I%d, std::remove_cv_t<decltype(%s)>>::value, "c%d ref-ratio");' % (i, ref, i))
             for tag, s in (("type", sp.type(e)), ("maker", sp.maker(e)), ("symbol", sp.symbol(e)), ("constant", sp.constant(e)), ("singular", sp.singular(e))):
                 if s is None:
                     continue
@@ -107,7 +112,7 @@ def run(ctx):
                 elif c["mk"] != prev["mk"]:
                     stats["negative_pairs"] += 1
                     L.append('static_assert(!are_units_quantity_equivalent(I%d{}, I%d{}), "c%d not-equivalent c%d");' % (i, j, i, j))
-                    L.append('static_assert(unit_ratio(I%d{}, I%d{}) != mag<1>(), "c%d ratio-not-one c%d");' % (i, j, i, j))
+                    L.append('static_assert(!RatioIsOne<I%d, I%d>::value, "c%d ratio-not-one c%d");' % (i, j, i, j))
                 else:
                     L.append('static_assert(are_units_quantity_equivalent(I%d{}, I%d{}), "c%d same-denotation-equivalent c%d");' % (i, j, i, j))
             prev = c
@@ -129,7 +134,7 @@ def run(ctx):
         res = [("assert", f.strip().rstrip('"'), cfg, "") for f in sorted(set(fails))]
         if hard:
             if len(lst) == 1 or ncomp[0] > 40 * len(chunks):
-                res.append(("hard", "c%d" % lst[0]["i"], cfg, "\n".join(errs[:4])))
+                res.append(("hard", "c%d" % lst[0]["i"], cfg, "\n".join(hard[:4])))
             else:
                 h = len(lst) // 2
                 return compile_chunk((lst[:h], cfg)) + compile_chunk((lst[h:], cfg))
